@@ -1,7 +1,7 @@
 """Rules of DESIGN.md 4.E/4.F: iterators and aliasing.
 R-ITEMS-GUARD, R-FORWARD, R-CLONE-FIELDS, R-DEFAULT-EMPTY, R-RETAIN-SHAPE,
 R-EXTRACT-NODROP, R-MANYMUT, R-CURSOR-STATE."""
-from core import callee_path, last_field, rv_operands
+from core import callee_path, callee_decl, last_field, rv_operands
 from cond import sources, branch_sources, controlling_sources, expr_key
 from rules.base import Result, where, line_of
 from rules.accounting import deep_root, operand_deep_root
@@ -130,6 +130,11 @@ def _iterator_impl_types(F):
     return out
 
 
+# front-consuming adaptors of core::iter::Iterator that are defined through `next` of the receiver: a `next` written with one of
+# them on the inner cursor (`self.iter.by_ref().find(..)`) consumes exactly what a loop over `self.iter.next()` consumes
+NEXT_EQUIVALENTS = ("find", "find_map", "try_fold", "nth")
+
+
 def r_forward(F, V):
     R = Result("R-FORWARD", F.cfg)
     iters = _iterator_impl_types(F)
@@ -170,13 +175,22 @@ def r_forward(F, V):
                 if f["k"] != "fn" or not t["args"]:
                     continue
                 m = f.get("method") or f["path"].split("::")[-1]
-                if m != it["name"]:
+                if m != it["name"] and not (it["name"] == "next" and m in NEXT_EQUIVALENTS and (f.get("trait") or f["path"]).startswith("core::iter::")):
                     continue
                 a0 = t["args"][0]
-                if a0["k"] in ("copy", "move"):
+                for _ in range(3):
+                    if a0["k"] not in ("copy", "move"):
+                        break
                     r, path = deep_root(body, a0["p"])
                     if r == 1 and fld in path:
                         hit = i
+                        break
+                    # `self.iter.by_ref()` is the receiver itself
+                    d = body.single_def(r) if r is not None else None
+                    if d and d[0] == "call" and (callee_decl(d[3]) or "") == "core::iter::traits::iterator::Iterator::by_ref" and d[3]["args"]:
+                        a0 = d[3]["args"][0]
+                    else:
+                        break
             if hit is not None:
                 R.inst(key, "%s forwards to self.%s.%s" % (it["name"], fld, it["name"]), "ok", True, where(body, bb=hit))
             else:
